@@ -725,9 +725,15 @@ impl<'de, R: Read<'de>> Parser<R> {
                 // The empty list does not nest anything, so it does not count
                 // as a level: `nil` read as the empty list is accepted where
                 // `()`, which it is printed as, has to be accepted as well.
-                if self.parse_whitespace()? == Some(close) {
-                    self.eat_char();
-                    return Ok(Some(Value::Null));
+                match self.parse_whitespace()? {
+                    Some(b) if b == close => {
+                        self.eat_char();
+                        return Ok(Some(Value::Null));
+                    }
+                    // The input ends right here: it is incomplete, whether or
+                    // not the list would have turned out to be nested too deep.
+                    None => return Err(self.peek_error(ErrorCode::EofWhileParsingList)),
+                    Some(_) => {}
                 }
                 self.enter_nested()?;
 
@@ -811,13 +817,17 @@ impl<'de, R: Read<'de>> Parser<R> {
             }
             Token::ListOpen(close) => {
                 // See `next_value`: the empty list does not count as a level.
-                if self.parse_whitespace()? == Some(close) {
-                    self.eat_char();
-                    return Ok(Some(Datum::primitive(
-                        Value::Null,
-                        start,
-                        self.read.position(),
-                    )));
+                match self.parse_whitespace()? {
+                    Some(b) if b == close => {
+                        self.eat_char();
+                        return Ok(Some(Datum::primitive(
+                            Value::Null,
+                            start,
+                            self.read.position(),
+                        )));
+                    }
+                    None => return Err(self.peek_error(ErrorCode::EofWhileParsingList)),
+                    Some(_) => {}
                 }
                 self.enter_nested()?;
 
